@@ -429,6 +429,21 @@ impl Check for SynCheck {
             "inputs beyond bracket-nesting depth 256 are out of scope (documented non-goal)".into(),
         ]
     }
+    fn sanitizer_steps(&self, seed: u64, agg: &mut Agg) {
+        // tree construction and cursor walks are unsafe rowan code, and lib.rs transmutes u16 -> SyntaxKind:
+        // the C01 monitor under the Miri interpreter, then under ASan + libFuzzer
+        crate::sanit::miri("parse", seed, 16, 120, agg);
+        let mode = self.mode;
+        crate::sanit::fuzz("lossless", 90, agg, &move |bytes| {
+            let text = String::from_utf8_lossy(bytes).to_string();
+            let mut ctx = Ctx::new(Tier::Thorough, 0, None);
+            match mode {
+                Mode::Lossless => monitor_lossless(&text, &mut ctx),
+                Mode::Totality => monitor_totality(&text, &mut ctx),
+            }
+            ctx.violations.values().map(|v| (v.signature.clone(), v.what.clone())).collect()
+        });
+    }
     fn technique(&self) -> &'static str {
         match self.mode {
             Mode::Lossless => "invariant monitor on syntax::parse over exhaustive small-scope + mutated + corpus inputs",
